@@ -11,7 +11,7 @@ pats = [a for a in sys.argv[1:] if not a.startswith("-")]
 vsel = [a.split("=", 1)[1] for a in sys.argv[1:] if a.startswith("--variant=")]
 tier = ([a.split("=", 1)[1] for a in sys.argv[1:] if a.startswith("--tier=")] or ["quick"])[0]
 for fq, spec in REGISTRY.items():
-    if pats and not any(p in fq for p in pats):
+    if (pats and not any(p in fq for p in pats)) or type(spec).setup is __import__("pyvc.contract").contract.FunctionSpec.setup:
         continue
     t = time.time()
     if vsel:
